@@ -143,6 +143,35 @@ func runC08(raw json.RawMessage, w *Writer) {
 				same = append(same, ok)
 			}
 			w.Emit(Ev{"ev": "reread", "k": k, "unchanged": same})
+			// what Payload returned is the caller's: it appends a trailer to one fragment and writes over another one
+			// (e.g. an auth tag, in-place encryption); no OTHER fragment handed out so far may change, and later
+			// calls are compared with the twin as before
+			if len(hs) > 0 && len(hs[len(hs)-1].frags) > 0 {
+				last := hs[len(hs)-1]
+				i := k % len(last.frags)
+				if cap(last.frags[i]) > len(last.frags[i]) {
+					ext := last.frags[i][:len(last.frags[i])+1]
+					ext[len(ext)-1] = 0xEE
+				}
+				intact := func() bool {
+					for _, h := range hs {
+						for q := range h.frags {
+							if !bytes.Equal(h.frags[q], h.snap[q]) {
+								return false
+							}
+						}
+					}
+					return true
+				}
+				others := intact() // after the append
+				j := (k + 1) % len(last.frags)
+				for x := range last.frags[j] {
+					last.frags[j][x] ^= 0xFF
+				}
+				last.snap[j] = cloneBytes(last.frags[j])
+				others = others && intact() // after the overwrite
+				w.Emit(Ev{"ev": "callerwrite", "k": k, "others_unchanged": others})
+			}
 		}
 	}
 }
